@@ -178,7 +178,7 @@ def run(idx, rep, tier):
     probe_coverage(idx, rep)
     rep.floor("k-guard", 7)
     rep.floor("probe-coverage", 1)
-    rep.floor("forwarded", 5)
+    rep.floor("forwarded", 3)
     rep.floor("rule-algebra", 5)
     rep.floor("trace-rule", 2)
     rep.floor("auto-selection", 1)
